@@ -240,9 +240,9 @@ func c10Run(b *core.B) {
 
 func init() {
 	core.Register(&core.Prop{
-		ID:    "C10",
-		Level: "exploration",
-		Rule: "operations New(i) (at most 4 live contexts) and Set(i, k, v) with k in {a, b, len (a built-in helper's name)} and v in {1, 2, nil}, from 8 kinds of root (NewContext, NewContextWithContext, NewContextWith over 6 data maps incl. user values and a user nil under the built-in's name); every history of length 1..5 (quick) / 1..6 (thorough) is enumerated without state merging and re-driven on fresh real contexts; after its last operation Value(k) and Has(k) of every live context for k in {a, b, len, a never-set key} are compared with the chain-of-scopes reference model (all prefixes are histories of their own, so every intermediate state is checked too); plus 10k (100k) random histories of length 200 on up to 8 contexts checked after every operation. All histories are distinct by construction.",
+		ID:         "C10",
+		Level:      "exploration",
+		Rule:       "operations New(i) (at most 4 live contexts) and Set(i, k, v) with k in {a, b, len (a built-in helper's name)} and v in {1, 2, nil}, from 8 kinds of root (NewContext, NewContextWithContext, NewContextWith over 6 data maps incl. user values and a user nil under the built-in's name); every history of length 1..5 (quick) / 1..6 (thorough) is enumerated without state merging and re-driven on fresh real contexts; after its last operation Value(k) and Has(k) of every live context for k in {a, b, len, a never-set key} are compared with the chain-of-scopes reference model (all prefixes are histories of their own, so every intermediate state is checked too); plus 10k (100k) random histories of length 200 on up to 8 contexts checked after every operation. All histories are distinct by construction.",
 		Assume:     []string{"keys reachable only through a wrapped context.Context are not compared", "the caller's map passed to NewContextWith is not inspected"},
 		Batches:    batchesQT(32, 128),
 		Run:        c10Run,
